@@ -20,6 +20,7 @@ import (
 	"encoding/json"
 	"fmt"
 	"math"
+	"reflect"
 	"strings"
 	"time"
 
@@ -90,7 +91,30 @@ func gkCases() []gkCase {
 		{"*time", &t, map[string]interface{}{"DateTime": "2020-02-29T23:59:58.123456789+01:00"}},
 		{"time-utc", time.Date(1999, 12, 31, 0, 0, 0, 0, time.UTC), map[string]interface{}{"DateTime": "1999-12-31T00:00:00Z"}},
 	}
-	allNil := map[string]interface{}{"Int": nil, "Float": nil, "String": nil, "Boolean": nil, "ID": nil, "DateTime": nil}
+	// the enum Shade has the internal values 1, "text", true: a resolver value (or
+	// a pointer to one) equal to an internal value gives that value's name,
+	// any other value gives null
+	for i := range out {
+		v := out[i].value
+		rv := reflect.ValueOf(v)
+		if rv.Kind() == reflect.Ptr && !rv.IsNil() {
+			v = rv.Elem().Interface()
+		}
+		switch v {
+		case 1:
+			out[i].want["Enum"] = "ONE"
+		case "text":
+			out[i].want["Enum"] = "TEXT"
+		case true:
+			out[i].want["Enum"] = "TRUE"
+		default:
+			out[i].want["Enum"] = nil
+		}
+	}
+	one := 1
+	out = append(out, gkCase{"int-1", 1, map[string]interface{}{"Enum": "ONE", "Int": float64(1), "Float": float64(1), "ID": "1"}},
+		gkCase{"*int-1", &one, map[string]interface{}{"Enum": "ONE", "Int": float64(1), "Float": float64(1)}})
+	allNil := map[string]interface{}{"Enum": nil, "Int": nil, "Float": nil, "String": nil, "Boolean": nil, "ID": nil, "DateTime": nil}
 	for _, n := range []gkCase{{"nil-*int", nilI, nil}, {"nil-*float64", nilF, nil}, {"nil-*string", nilS, nil}, {"nil-*bool", nilB, nil}, {"nil-*time", nilT, nil}, {"nil-*uint8", nilU8, nil}, {"nil", nil, nil}} {
 		n.want = allNil
 		if n.name == "nil-*time" {
@@ -102,10 +126,13 @@ func gkCases() []gkCase {
 	return out
 }
 
+var gkEnum = graphql.NewEnum(graphql.EnumConfig{Name: "Shade", Values: graphql.EnumValueConfigMap{
+	"ONE": &graphql.EnumValueConfig{Value: 1}, "TEXT": &graphql.EnumValueConfig{Value: "text"}, "TRUE": &graphql.EnumValueConfig{Value: true}}})
+
 var gkTypes = []struct {
 	name string
-	t    *graphql.Scalar
-}{{"Int", graphql.Int}, {"Float", graphql.Float}, {"String", graphql.String}, {"Boolean", graphql.Boolean}, {"ID", graphql.ID}, {"DateTime", graphql.DateTime}}
+	t    graphql.Output
+}{{"Int", graphql.Int}, {"Float", graphql.Float}, {"String", graphql.String}, {"Boolean", graphql.Boolean}, {"ID", graphql.ID}, {"DateTime", graphql.DateTime}, {"Enum", gkEnum}}
 
 func gkLegal(typ string, v interface{}) bool {
 	if v == nil {
@@ -121,6 +148,9 @@ func gkLegal(typ string, v interface{}) bool {
 	case "Boolean":
 		_, ok := v.(bool)
 		return ok
+	case "Enum":
+		n, ok := v.(string)
+		return ok && (n == "ONE" || n == "TEXT" || n == "TRUE")
 	default:
 		_, ok := v.(string)
 		return ok
